@@ -730,11 +730,21 @@ package ring
 //@   assigns p2
 //@   ensures val(p2) == old(val(p1)) * scalar && mexp(p2) == old(mexp(p1)) && dom(p2) == old(dom(p1))
 
-//@ afunc Ring.MulScalarThenAdd
-//@   trusted the ring-element reading of the row-level contract func Ring.MulScalarThenAdd
-//@   requires ((isntt(p1) && isntt(p2)) || (iscoef(p1) && iscoef(p2))) && mexp(p1) == mexp(p2)
+//@ afunc Ring.DivRoundByLastModulusNTT
+//@   trusted opaque at the abstract level (a rounded division by the last modulus is not a ring operation; coefficient-level contract: property C02): writes the output and the buffer
+//@   assigns buff, p1
+
+//@ afunc Ring.MulScalarThenSub
+//@   trusted the ring-element reading of the row-level contract func Ring.MulScalarThenSub; the zero element is zero in every domain and Montgomery form, so an accumulator that holds it takes the representation of p1
+//@   requires (((isntt(p1) && isntt(p2)) || (iscoef(p1) && iscoef(p2))) && mexp(p1) == mexp(p2)) || val(p2) == 0
 //@   assigns p2
-//@   ensures val(p2) == old(val(p2)) + old(val(p1)) * scalar && mexp(p2) == old(mexp(p2)) && dom(p2) == old(dom(p2))
+//@   ensures val(p2) == old(val(p2)) - old(val(p1)) * scalar && mexp(p2) == old(mexp(p1)) && dom(p2) == old(dom(p1))
+
+//@ afunc Ring.MulScalarThenAdd
+//@   trusted the ring-element reading of the row-level contract func Ring.MulScalarThenAdd; the zero element is zero in every domain and Montgomery form, so an accumulator that holds it takes the representation of p1
+//@   requires (((isntt(p1) && isntt(p2)) || (iscoef(p1) && iscoef(p2))) && mexp(p1) == mexp(p2)) || val(p2) == 0
+//@   assigns p2
+//@   ensures val(p2) == old(val(p2)) + old(val(p1)) * scalar && mexp(p2) == old(mexp(p1)) && dom(p2) == old(dom(p1))
 
 // ---- Shamir share generation (property C15): the value of a vector of ring elements, read as a
 // ---- polynomial in one variable, at a public point.  A BOUNDED instance (three coefficients, the
